@@ -91,7 +91,9 @@ def handleLoadF (clear : Bool) (d : DState) (f : Option Filter) : DState × Stri
   let spec := match specFilteredMem clear d.s f with
     | none => "?"
     | some m => encStore m ++ "," ++ encBool nonEmpty
-  let last := if e.isNone then some nonEmpty else none
+  -- a failed `load_filtered_policy` leaves memory as it was (it reads into a copy), so what memory holds - a filtered
+  -- subset or not - is what it was before; a failed incremental load leaves what it had appended: not judged
+  let last := if e.isNone then some nonEmpty else if clear then d.lastFiltered else none
   ({ s := s', lastFiltered := last },
    "model=" ++ showOE e ++ "," ++ encStore s'.mem ++ "," ++ encBool s'.filtered ++ " spec=" ++ spec ++ " dom=T")
 
@@ -107,7 +109,7 @@ def handleMissing (d : DState) (o : Op) : DState × String :=
     ({ d with s := fs'.e },
      "model=" ++ showOE e ++ "," ++ encStore fs'.e.mem ++ "," ++ encBool fs'.e.filtered ++ " spec=? dom=T")
   | .loadFiltered _ =>
-    ({ d with s := fs'.e, lastFiltered := none },
+    ({ d with s := fs'.e },
      "model=" ++ showOE e ++ "," ++ encStore fs'.e.mem ++ "," ++ encBool fs'.e.filtered ++ " spec=? dom=T")
   | .save | .adapterSave =>
     let spec := match d.lastFiltered with
